@@ -58,7 +58,7 @@ class FnSpec:
 
 
 def parse_sidecar(path):
-    spec = {"unit": None, "rules": [], "preamble": [], "postamble": [], "items": [], "path": path}
+    spec = {"unit": None, "rules": [], "preamble": [], "postamble": [], "items": [], "path": path, "crate_attrs": []}
     cur_item = None
     cur_fn = None
     cur_site = None
@@ -74,6 +74,8 @@ def parse_sidecar(path):
             continue
         if s.startswith("unit "):
             spec["unit"] = s[5:].strip()
+        elif s.startswith("crate_attr "):
+            spec["crate_attrs"].append(s[11:].strip())
         elif s == "rules" or s.startswith("rules "):
             spec["rules"] = s.split()[1:]
         elif s.startswith("preamble "):
@@ -315,7 +317,7 @@ class Generated:
 def build_unit(spec, repo=REPO):
     g = Generated()
     cdir = os.path.join(VERIF, "contracts")
-    parts = ["use vstd::prelude::*;\nverus! {\n"]
+    parts = ["".join(a + "\n" for a in spec["crate_attrs"]) + "use vstd::prelude::*;\nverus! {\n"]
     for p in spec["preamble"]:
         parts.append("// ---- preamble %s\n" % p)
         parts.append(open(os.path.join(cdir, p)).read())
